@@ -39,8 +39,8 @@ CONDITIONS = [
     # database file created by a context with db_path=None (temporary file), then shared
     {"name": "default-path-db", "backup": False, "bootstrap": False, "default_path": True},
     # workers keep a get_all_pages() cursor open while they work
-    {"name": "open-cursor", "backup": False, "bootstrap": False, "cursor": True},
-    {"name": "default-path-db+open-cursor", "backup": False, "bootstrap": False, "default_path": True, "cursor": True},
+    {"name": "open-cursor", "backup": False, "bootstrap": True, "cursor": True},
+    {"name": "default-path-db+open-cursor", "backup": False, "bootstrap": True, "default_path": True, "cursor": True},
 ]
 
 
@@ -209,6 +209,8 @@ def make_template(d, cond):
     w.add_page("Module:m", 828, MOD, model="Scribunto")
     w.add_page("Template:t", 10, "T{{{1}}}")
     w.add_page("P", 0, "{{t|x}} {{#invoke:m|f|y}}")
+    for i in range(4):
+        w.add_page("Filler%d" % i, 0, "filler page %d" % i)   # so that an open get_all_pages() cursor really stays open
     if cond["bootstrap"]:
         w.add_page("Module:_sandbox_phase1", 828, "", model="Scribunto")
     w.db_conn.commit()
@@ -271,6 +273,12 @@ def run_one(tmpl, prefix, n, cursor=False):
             s.final_table = table(d)
         except Exception as e:
             s.final_table = "unreadable: " + type(e).__name__
+        try:
+            con = _orig_connect(str(Path(d) / "t.db"))
+            s.journal_mode = con.execute("PRAGMA journal_mode").fetchone()[0]
+            con.close()
+        except Exception as e:
+            s.journal_mode = "unreadable: " + type(e).__name__
         s.leftovers = sorted(f for f in os.listdir(d) if "backup" in f)
     finally:
         shutil.rmtree(d, ignore_errors=True)
@@ -320,6 +328,10 @@ def explore(tmpl, n, bound, acc, cond, expected, before, report):
         if s.final_table not in allowed:
             acc.violation("stored_pages_unchanged", case,
                           s.final_table if isinstance(s.final_table, str) else {"rows": len(s.final_table)}, {"rows": len(before)})
+        if s.journal_mode != "wal" and isinstance(s.final_table, list):
+            # readers block writers (and vice versa) in any other journal mode: with a real busy timeout that is the
+            # property's database-locked failure as soon as a reader keeps a cursor open long enough
+            acc.violation("database_in_wal_mode", case, s.journal_mode, "wal")
         acc.count("blocked_retries", s.blocked_retries)
         costs = preemption_costs(s)
         for i in range(len(prefix), len(s.points)):
